@@ -254,8 +254,13 @@ pub fn expected_table(stmt: &AggregateStatement, rows: &[RowFacts]) -> Result<Ve
             Some(h) => { let mut hidden = 0; match having_value(h, stmt, g, &mut hidden, &aggs) { Some(Outcome::Val(RV::Bool(true))) => Keep::Yes, Some(Outcome::Val(RV::Bool(false))) | Some(Outcome::Val(RV::Null)) => Keep::No, Some(Outcome::Err(_)) => return Err(FoldError::StatementMustFail("having".into())), _ => Keep::Maybe } }
         };
         // a cell that can only be an error makes the whole statement fail
-        if cells.iter().any(|c| c.err && c.vals.is_empty() && !c.anything && !c.any_ts && !c.any_text) { return Err(FoldError::StatementMustFail("aggregate has no value".into())); }
         let no_value = aggs.iter().enumerate().all(|(i, a)| matches!(a, Aggregate::GroupKey(_)) || (valueless_over_nulls(a) && g.args[i].iter().all(|v| v.is_null())));
+        if cells.iter().any(|c| c.err && c.vals.is_empty() && !c.anything && !c.any_ts && !c.any_text) {
+            // ... unless the group is one the engine does not list at all (open finding: no aggregate has a value for it): then the
+            // wrapper `1000 / COUNT(c)` of that group is never evaluated, and whether the statement fails is not decidable
+            if no_value { return Err(FoldError::Undecidable("error-only cell in a group without values".into())); }
+            return Err(FoldError::StatementMustFail("aggregate has no value".into()));
+        }
         out.push(ExpGroup { key: g.key.clone(), rows: g.rows, cells, keep, situations, no_aggregate_has_a_value: no_value });
     }
     Ok(out)
